@@ -1054,11 +1054,20 @@ class H2Stream:
             events[0].stream_ended = es_events[0]
             events += es_events
 
-        self._initialize_content_length(headers)
+        # Trailers and informational responses say nothing about the length
+        # of the body of this message.
+        if not isinstance(
+                events[0], (TrailersReceived, InformationalResponseReceived)):
+            self._initialize_content_length(headers)
 
         if isinstance(events[0], TrailersReceived):
             if not end_stream:
                 raise ProtocolError("Trailers must have END_STREAM set")
+
+        # A header block can end the message as well: the body is complete
+        # (possibly empty), so it has to match the announced length.
+        if end_stream:
+            self._track_content_length(0, end_stream)
 
         hdr_validation_flags = self._build_hdr_validation_flags(events)
         events[0].headers = self._process_received_headers(
